@@ -14,6 +14,9 @@ def get_column(input_, pos):
 class Parser(object):
     literals = ['+', '-', '*', '/', '(', ')', '#']
 
+    max_constant_bits = 128
+    '''Constants and intermediate results of constant expressions wider than this are rejected.'''
+
     keywords = (
         "const", "enum", "typedef", "struct", "union",
         "u8", "u16", "u32", "u64", "i8", "i16", "i32", "i64",
@@ -52,7 +55,8 @@ class Parser(object):
 
     def t_CONST10(self, t):
         r'(([1-9]\d*)|0)'
-        t.value = int(t.value)
+        # more digits than any wire type can hold (and than int() accepts): leave it to the range check
+        t.value = int(t.value) if len(t.value) <= 60 else 1 << 200
         return t
 
     t_LBRACKET = r'\['
@@ -448,9 +452,19 @@ class Parser(object):
             elif t[2] == '/':
                 t[0] = t[1] // t[3]
             elif t[2] == '<<':
+                if t[3] > self.max_constant_bits:
+                    raise OverflowError
                 t[0] = t[1] << t[3]
             elif t[2] == '>>':
                 t[0] = t[1] >> t[3]
+            if t[0].bit_length() > self.max_constant_bits:
+                raise OverflowError
+        except OverflowError:
+            self._parser_error(
+                'constant expression out of range',
+                t.lineno(1), t.lexpos(1)
+            )
+            t[0] = 0
         except ZeroDivisionError:
             self._parser_error(
                 'division by zero',
@@ -500,7 +514,12 @@ class Parser(object):
         '''constant : CONST10
                     | CONST8
                     | CONST16'''
-        t[0] = t[1]
+        self._parser_check(
+            t[1].bit_length() <= self.max_constant_bits,
+            'constant out of range',
+            t.lineno(1), t.lexpos(1)
+        )
+        t[0] = t[1] if t[1].bit_length() <= self.max_constant_bits else 0
         t.slice[0].lineno = t.lineno(1)
         t.slice[0].lexpos = t.lexpos(1)
 
